@@ -164,11 +164,30 @@ func c11Prelude() {
 	}
 }
 
+// c11Ops: operators registered (through the public API, on dynamic token types) on the builder of the parser under test
+var c11Ops []customOp
+
+func c11OpsStr(ops []customOp) string {
+	var l []string
+	for _, o := range ops {
+		if o.role == "i" {
+			l = append(l, fmt.Sprintf("i:%s:%d", hexOf(o.lit), o.prec))
+		} else {
+			l = append(l, o.role+":"+hexOf(o.lit))
+		}
+	}
+	return strings.Join(l, ",")
+}
+
 func checkC11(c *oracleCtx, flags, src string) {
 	if c11Timeouts >= 3 {
 		return
 	}
 	input := map[string]any{"src": hexOf(src), "text": src, "flags": flags, "history": c11PreludeText}
+	ops := c11Ops
+	if len(ops) > 0 {
+		input["ops"] = c11OpsStr(ops)
+	}
 	ch := make(chan c11Result, 1)
 	go func() {
 		var res c11Result
@@ -178,6 +197,11 @@ func checkC11(c *oracleCtx, flags, src string) {
 			}
 			ch <- res
 		}()
+		if len(ops) > 0 {
+			o := runParse(parseSetup{flags: strings.ReplaceAll(flags, "-", ""), ops: ops}, src)
+			res.prog, res.err, res.errs = o.prog, o.err, o.errs
+			return
+		}
 		pp := parseB(flags, src)
 		res.prog, res.err, res.errs = pp.prog, pp.err, pp.errs
 	}()
@@ -261,7 +285,11 @@ func oracleC11(c *oracleCtx) {
 			c.count(in.line)
 		case "rec":
 			if _, ok := in.rec["src"]; ok {
+				if o := recStr(in.rec, "ops"); o != "" {
+					c11Ops = parseOps(o)
+				}
 				checkC11(c, orDash(in.flags), in.src)
+				c11Ops = nil
 				c.count(in.line)
 			}
 		}
@@ -289,6 +317,18 @@ func oracleC11(c *oracleCtx) {
 		}
 		c.count(f)
 	}
+	// registered operators (a prefix, an infix and a postfix one, alone and together) in and out of place
+	for _, cfg := range []string{"p:7e", "i:5e:7", "s:40", "p:7e,i:5e:7,s:40", "p:7e,i:7e:5", "i:5e:13,s:40"} {
+		c11Ops = parseOps(cfg)
+		for _, f := range append([]string{"a ~ b", "a\n~b", "x = a ~", "~", "~ ~ a", "a ^", "^ a", "a ^ ^ b", "a @ @", "a @ b", "@ a", "f(a ~ b, c)", "let v = a\n~ v", "a ^ b ~ c @ d",
+			"if (a ~) b", "[a ~ b]", "{k: a ~ b}", "a ~= b", "a @\n@", "x = ~"}, customOpSources...) {
+			for _, fl := range modeFlags {
+				checkC11(c, fl, f)
+			}
+			c.count(cfg + "|" + f)
+		}
+	}
+	c11Ops = nil
 	// truncations at every byte of some programs
 	nt := c.n(12, 400)
 	for i := 0; i < nt && !c.expired(); i++ {
